@@ -42,7 +42,11 @@ B_length == <<108, 101, 110, 103, 116, 104>>
 Intended == [trimWrite |-> "flushfirst", wrap |-> "keepinner", flushErr |-> "return"]
 Pinned == [trimWrite |-> "append", wrap |-> "pathonly", flushErr |-> "panic"]
 
-Cx0 == [strict |-> FALSE, path |-> <<>>, line0 |-> 0, fs |-> <<>>, cache |-> <<>>, pol |-> Intended]
+\* perm: the order in which a map of Len(perm) entries is iterated (C11 does
+\* not fix it, C02 only requires it to be the same every time): entry
+\* perm[i] of the key-sorted pairs comes i-th.  A map of two or more entries
+\* for which no order is given leaves the render undecided.
+Cx0 == [strict |-> FALSE, path |-> <<>>, line0 |-> 0, fs |-> <<>>, cache |-> <<>>, pol |-> Intended, perm |-> <<>>]
 
 \* ------------------------------------------------------------- the sink
 Sink0 == [acc |-> <<>>, calls |-> 0, failAt |-> 0, keep |-> 0, failed |-> FALSE]
@@ -118,10 +122,14 @@ Window(items, rev, off, lim) ==
       s == IF off > 0 THEN Drop(r, off) ELSE r
   IN  IF lim >= 0 THEN Take(s, lim) ELSE s
 
-LoopItems(v) ==
+LoopItems(cx, v) ==
   CASE v.k = "arr" -> [ok |-> TRUE, v |-> v.v]
     [] v.k = "range" -> [ok |-> TRUE, v |-> RangeItems(v.a, v.b)]
-    [] v.k = "map" -> [ok |-> TRUE, v |-> [i \in 1..Len(v.v) |-> Arr(<<Str(v.v[i][1]), v.v[i][2]>>)]]
+    [] v.k = "map" ->
+         LET pairs == [i \in 1..Len(v.v) |-> Arr(<<Str(v.v[i][1]), v.v[i][2]>>)] IN
+           IF Len(pairs) <= 1 THEN [ok |-> TRUE, v |-> pairs]
+           ELSE IF Len(cx.perm) = Len(pairs) THEN [ok |-> TRUE, v |-> [i \in 1..Len(pairs) |-> pairs[cx.perm[i]]]]
+           ELSE [ok |-> FALSE, v |-> <<>>]
     [] v.k = "nil" -> [ok |-> TRUE, v |-> <<>>]
     [] OTHER -> [ok |-> FALSE, v |-> <<>>]
 
@@ -224,7 +232,7 @@ ExecNode(cx, st0, n, line) ==
            IF v.r = "err" THEN Fail(cx, st0, line, "eval")
            ELSE IF v.r = "unspec" THEN Undecided(st0)
            ELSE IF IsUnspec(v.v) THEN Undecided(st0)
-           ELSE IF v.v = Nil /\ cx.strict THEN Fail(cx, st0, line, "strict")
+           ELSE IF IsNil(v.v) /\ cx.strict THEN Fail(cx, st0, line, "strict")
            ELSE LET ls == Leaves(v.v) IN
              IF \E i \in 1..Len(ls) : ~ls[i].ok THEN Undecided(st0)
              ELSE IoCheck(cx, WriteAll(cx, st0, [i \in 1..Len(ls) |-> ls[i].s]), line)
@@ -255,14 +263,14 @@ ExecNode(cx, st0, n, line) ==
     [] n.t = "for" ->
          LET c == Eval(n.coll, st0.env) IN
            IF c.r = "err" THEN Fail(cx, st0, line, "eval")
-           ELSE IF c.r = "unspec" \/ ~LoopItems(c.v).ok THEN Undecided(st0)
+           ELSE IF c.r = "unspec" \/ ~LoopItems(cx, c.v).ok THEN Undecided(st0)
            ELSE LET off == ModVal(n, "off", st0.env)
                     lim == ModVal(n, "lim", st0.env)
                     cols == IF n.tag = "tablerow" THEN ModVal(n, "cols", st0.env) ELSE [r |-> "none"]
                 IN
              IF off.r = "err" \/ lim.r = "err" \/ cols.r = "err" THEN Fail(cx, st0, line, "eval")
              ELSE IF off.r = "unspec" \/ lim.r = "unspec" \/ cols.r = "unspec" THEN Undecided(st0)
-             ELSE LET sel == Window(LoopItems(c.v).v, Fld(n, "rev", FALSE),
+             ELSE LET sel == Window(LoopItems(cx, c.v).v, Fld(n, "rev", FALSE),
                                     IF off.r = "int" THEN off.v ELSE 0,
                                     IF lim.r = "int" THEN lim.v ELSE 0 - 1)
                   IN
@@ -279,7 +287,7 @@ ExecNode(cx, st0, n, line) ==
     [] n.t = "continue" -> [st0 EXCEPT !.sig = "continue"]
     [] n.t = "cycle" ->
          LET loops == {j \in 1..Len(st0.k) : st0.k[j].f = "loop"} IN
-           IF Lookup(st0.env, B_forloop) = Nil /\ loops = {} THEN Fail(cx, st0, line, "cycle")
+           IF IsNil(Lookup(st0.env, B_forloop)) /\ loops = {} THEN Fail(cx, st0, line, "cycle")
            ELSE IF loops = {} \/ InInclude(st0.k) THEN Undecided(st0)
            ELSE LET j == CHOOSE j \in loops : \A i \in loops : i <= j
                     lf == st0.k[j]
@@ -289,7 +297,7 @@ ExecNode(cx, st0, n, line) ==
                     cyc2 == IF has THEN [i \in 1..Len(lf.cyc) |-> IF lf.cyc[i][1] = g THEN <<g, cnt + 1>> ELSE lf.cyc[i]]
                             ELSE Append(lf.cyc, <<g, 1>>)
                     \* the loop record must still be the loop's own
-                    own == Lookup(st0.env, B_forloop) = ForloopV(lf.i, Len(lf.items))
+                    own == Same(Lookup(st0.env, B_forloop), ForloopV(lf.i, Len(lf.items)))
                 IN  IF ~own THEN Undecided(st0)
                     ELSE IoCheck(cx, TwWrite(cx, [st0 EXCEPT !.k[j].cyc = cyc2], n.vals[(cnt % Len(n.vals)) + 1]), line)
     [] n.t = "include" ->
